@@ -15,6 +15,13 @@ pub assume_specification [HyperRequest::extensions] (r: &HyperRequest) -> (e: &E
 pub assume_specification<T> [Extensions::get::<T>] (e: &Extensions) -> (r: Option<&T>)
     ensures match r { Some(x) => ext_get::<T>(*e) == Some(*x), None => ext_get::<T>(*e) is None };
 pub open spec fn peer(r: HyperRequest) -> Option<nix::unistd::User> { ext_get::<nix::unistd::User>(req_ext(r)) }
+#[verifier::external_type_specification] pub struct ExConfig(Config);
+pub assume_specification [Config::unix_users] (c: &Config) -> (r: &HashMap<String, String>) ensures *r == c.unix_users;
+pub uninterp spec fn role_named(m: RoleMap, n: Seq<char>) -> Option<Arc<Role>>;
+pub assume_specification [RoleMap::get] (m: &RoleMap, n: &str) -> (r: Option<Arc<Role>>) ensures r == role_named(*m, n@);
+/// ASSUMED: a std String is determined by its characters (so a clone of a key is that key)
+#[verifier::external_body]
+pub broadcast proof fn axiom_string_ext(a: String, b: String) ensures #[trigger] a@ == #[trigger] b@ ==> a == b {}
 pub uninterp spec fn auth_user(id: Seq<char>, role: Arc<Role>) -> AuthInfo;
 pub assume_specification [AuthInfo::vx_user] (id: String, role: Arc<Role>) -> (a: AuthInfo) ensures a == auth_user(id@, role);
 '''
@@ -24,7 +31,7 @@ def build():
     U = Unit('c20_unix', 'C20', 'Unix-socket provider: identity iff the peer user name is mapped; then that name under the mapped role; unmapped peer is an error')
     prelude.hashmap(U)
     prelude.strings(U)
-    for t in ['HyperRequest', 'AuthInfo', 'Role', 'Token', 'Extensions']:
+    for t in ['HyperRequest', 'AuthInfo', 'Role', 'Token', 'Extensions', 'RoleMap']:
         U.opaque(t, '')
     U.outside('''
 use std::sync::Arc;
@@ -32,12 +39,42 @@ pub mod nix { pub mod unistd { pub struct User { pub name: String } } }
 impl HyperRequest { pub fn extensions(&self) -> &Extensions { unimplemented!() } }
 impl Extensions { pub fn get<T>(&self) -> Option<&T> { unimplemented!() } }
 impl AuthInfo { pub fn vx_user(_id: String, _r: Arc<Role>) -> Self { unimplemented!() } }
+pub type KrillResult<T> = Result<T, Error>;
+/// stand-in for krill::config::Config: the two fields the provider reads
+pub struct Config { pub unix_users: HashMap<String, String>, pub auth_roles: Arc<RoleMap> }
+impl Config { pub fn unix_users(&self) -> &HashMap<String, String> { &self.unix_users } }
+impl RoleMap { pub fn get(&self, _n: &str) -> Option<Arc<Role>> { unimplemented!() } }
 ''')
     U.add('#[verifier::external_type_specification] pub struct ExNixUser(nix::unistd::User);')
     U.enum(ERR, 'ApiAuthError', keep=['ApiInvalidCredentials'], derive=[])
+    U.enum(ERR, 'Error', keep=['ConfigError'], derive=[])
     U.struct(UNIX, 'AuthProvider', derive=[])
     U.add(SPEC)
     U.impl('impl AuthProvider', [
+        U.fn(UNIX, 'AuthProvider', 'new', requires=[('km', 'obeys_key_model::<String>()')],
+             ensures=[
+                 ('exactly_the_configured_system_users_are_mapped', '''r is Ok ==> forall |u: String| #[trigger] r->Ok_0.unix_users@.contains_key(u) <==> config.unix_users@.contains_key(u)'''),
+                 ('each_under_the_role_the_configuration_names', '''r is Ok ==> forall |u: String| #[trigger] r->Ok_0.unix_users@.contains_key(u) ==>
+                        role_named(*config.auth_roles, config.unix_users@[u]@) == Some(r->Ok_0.unix_users@[u])'''),
+             ],
+             loops={0: {'iter': 'vx_it', 'invariant': [
+                 ('km', 'obeys_key_model::<String>()'),
+                 ('pairs', '''vx_it.seq().len() == config.unix_users@.len() && vx_it.seq().no_duplicates()
+                        && (forall |i: int| 0 <= i < vx_it.seq().len() ==> config.unix_users@.contains_key(*(#[trigger] vx_it.seq()[i]).0) && config.unix_users@[*vx_it.seq()[i].0] == *vx_it.seq()[i].1)
+                        && (forall |u: String| #[trigger] config.unix_users@.contains_key(u) ==> exists |i: int| 0 <= i < vx_it.seq().len() && *(#[trigger] vx_it.seq()[i]).0 == u)'''),
+                 ('mapped_so_far', '''forall |u: String| #[trigger] unix_users@.contains_key(u) <==> exists |i: int| 0 <= i < vx_it.index@ && *(#[trigger] vx_it.seq()[i]).0 == u'''),
+                 ('roles_so_far', '''forall |u: String| #[trigger] unix_users@.contains_key(u) ==> config.unix_users@.contains_key(u)
+                        && role_named(*config.auth_roles, config.unix_users@[u]@) == Some(unix_users@[u])'''),
+             ]}},
+             ghost=[(('loop_start', 0), '''broadcast use axiom_string_ext; let ghost g_i = vx_it.index@ as int; let ghost g_map = unix_users@;
+                proof { assert(*k == *vx_it.seq()[g_i].0 && *v == *vx_it.seq()[g_i].1); }'''),
+                    (('loop_end', 0), '''proof {
+                    assert(unix_users@ =~= g_map.insert(*k, unix_users@[*k]));
+                    assert forall |u: String| #[trigger] unix_users@.contains_key(u) <==> exists |i: int| 0 <= i < g_i + 1 && *(#[trigger] vx_it.seq()[i]).0 == u by {
+                        if u == *k { assert(*vx_it.seq()[g_i].0 == u); }
+                        else if g_map.contains_key(u) { let j = choose |j: int| 0 <= j < g_i && *(#[trigger] vx_it.seq()[j]).0 == u; assert(*vx_it.seq()[j].0 == u); }
+                    }
+                }''')]),
         U.fn(UNIX, 'AuthProvider', 'authenticate',
              subst=[('AuthInfo::user(', 'AuthInfo::vx_user(', 'R9')],
              requires=[('km', 'obeys_key_model::<String>()')],
